@@ -636,30 +636,48 @@ VResult o_sweep(const VCase &c) {
 }
 
 // ------------------------------------------------------------ 4. process restarts
-// ops: 0 = dump, 1 = the process ends and a new one (fresh manager, same
-// parameters) takes over the directory
+// dumps_per_process[i] = number of dumps taken by the i-th process; between
+// two entries the process ends and a new one (fresh manager, same parameters)
+// takes over the directory
 VCase gen_restarts() {
-  VCase c;
-  c.I("backups", vr::irange(0, MAXB));
-  const int n = (int)vr::irange(1, 36);
-  std::vector<int64_t> ops;
-  for (int i = 0; i < n; ++i)
-    ops.push_back(vr::weighted({5, 1}));
-  c.I("ops", ops);
+  // fixed-position draws first (so that shrinking the history does not
+  // re-interpret them), the history last
+  const int64_t b = vr::irange(0, MAXB);
+  const int64_t variant = vr::irange(0, NVARIANT - 1);
+  const bool crash = !vr::coin(0.25);
+  const int64_t sel = vr::irange(0, 999);
+  const int np_ = (int)vr::irange(1, 6);
+  std::vector<int64_t> per;
   int cur = 0;
-  for (auto o : ops)
-    cur += (o == 0);
+  for (int i = 0; i < np_; ++i) {
+    // mostly short lives (0, 1, 2 dumps are the interesting ones for a
+    // takeover), sometimes long enough to fill all backups
+    per.push_back(vr::weighted({3, 1}) == 0 ? vr::irange(0, 3) : vr::irange(0, 12));
+    cur += (int)per.back();
+  }
+  VCase c;
+  c.I("backups", b);
+  c.I("dumps_per_process", per);
   // the dump after the history is crashed at this point (-1: no crash)
-  const int np = model_points((int)c.i("backups"), cur);
-  c.I("crash_ordinal", vr::coin(0.25) ? -1 : vr::irange(0, np - 1));
-  c.I("variant", vr::irange(0, NVARIANT - 1));
+  const int np = model_points((int)b, cur);
+  c.I("crash_ordinal", crash ? sel * np / 1000 : -1);
+  c.I("variant", variant);
   return c;
 }
 
 VResult o_restarts(const VCase &c) {
   VResult r;
   const int b = (int)c.i("backups"), v = (int)c.i("variant");
-  const std::vector<int64_t> &ops = c.iv("ops");
+  std::vector<int64_t> ops; // 0 = dump, 1 = new process
+  {
+    const std::vector<int64_t> &per = c.iv("dumps_per_process");
+    for (size_t i = 0; i < per.size(); ++i) {
+      if (i > 0)
+        ops.push_back(1);
+      for (int64_t j = 0; j < per[i]; ++j)
+        ops.push_back(0);
+    }
+  }
   const long k = (long)c.i("crash_ordinal");
   DirGuard dir;
   RestartManager *m = new_manager(dir.path, b);
@@ -732,11 +750,13 @@ VCase gen_takeover() {
   VCase c;
   const int64_t b = vr::irange(1, MAXB);
   c.I("backups", b);
-  c.I("dumps_first_process", vr::weighted({1, 3}) == 0
+  c.I("dumps_first_process", vr::weighted({2, 3}) == 0
                                  ? vr::irange(1, 2)
                                  : vr::irange(1, MAXD));
   c.I("dumps_second_process", vr::irange(1, b + 2));
-  c.I("crash_ordinal", vr::coin(0.3) ? -1 : vr::irange(0, 5));
+  c.I("crash_ordinal",
+      vr::coin(0.3) ? -1
+                    : vr::irange(0, model_points((int)b, (int)c.i("dumps_first_process")) - 1));
   c.I("variant", vr::irange(0, NVARIANT - 1));
   return c;
 }
@@ -808,7 +828,7 @@ int main(int argc, char **argv) {
        "RestartReader). Non-trivial: backups>=1 and dumps>=2 (a rotation "
        "happened).",
        {{"oldest-backup-dropped", 0.15}, {"multi-backup-shift", 0.3},
-        {"backups=0", 0.04}, {"backups=1", 0.04}}});
+        {"backups=0", 0.03}, {"backups=1", 0.03}}});
   props.push_back(
       {"crash_point", 4800, gen_crash, o_crash,
        "backups 1..8 x dumps before 0..20 x crash-point ordinal of the next "
@@ -839,9 +859,10 @@ int main(int argc, char **argv) {
        {}});
   props.push_back(
       {"restart_histories", 4000, gen_restarts, o_restarts,
-       "backups 0..8, up to 36 operations (dump | the process ends and a fresh "
-       "manager with the same parameters takes over the directory, as a "
-       "resubmitted run does), the full model compared after every dump, then "
+       "backups 0..8, 1..6 successive processes with 0..12 dumps each (between "
+       "them the process ends and a fresh manager with the same parameters "
+       "takes over the directory, as a resubmitted run does; the last process "
+       "may have taken no dump yet), the full model compared after every dump, then "
        "optionally one more dump crashed at a drawn ordinal (previous state "
        "must stay complete on disk, also when it is the first dump of a new "
        "process). Non-trivial: backups>=1 and at least one dump after a "
@@ -851,9 +872,9 @@ int main(int argc, char **argv) {
       {"new_process_keeps_last_dump", 800, gen_takeover, o_takeover,
        "backups 1..8, d1 in 1..20 dumps by a first process (weight on 1..2), a "
        "fresh manager over the same directory, optionally its first dump "
-       "crashed at ordinal 0..5, then 1..backups+2 dumps compared with the full "
+       "crashed at any of its crash points, then 1..backups+2 dumps compared with the full "
        "model: the dump the new process started from must survive. All cases "
        "non-trivial.",
-       {{"only-one-dump-before-restart", 0.1}}});
+       {{"only-one-dump-before-restart", 0.08}}});
   return vr::vmain(argc, argv, "C14", props);
 }
